@@ -371,6 +371,16 @@ def herm_action(g):
     return np.stack([herm_coords(g @ B @ g.conj().T) for B in HERM_BASIS], axis=-1)
 
 
+def herm_action_stack(gs):
+    """`herm_action` over a leading axis."""
+    gs = np.asarray(gs, dtype=complex)
+    cols = []
+    for B in HERM_BASIS:
+        X = gs @ B @ gs.conj().swapaxes(-1, -2)
+        cols.append(np.stack([X[..., 0, 0].real, X[..., 1, 1].real, X[..., 0, 1].real, X[..., 0, 1].imag], axis=-1))
+    return np.stack(cols, axis=-1)
+
+
 def herm_det_form():
     """Polarisation of det on Hermitian matrices: B(X,Y) = (det(X+Y) - det X - det Y)/2."""
     def d(X):
